@@ -80,6 +80,24 @@ Fixpoint run_gates (gs : list gate) (l : loc) (c : ctx) (now : Z) : loc * option
       if pass then run_gates r l' c now else (l', Some e)
   end.
 
+(** The gate sequence of each public operation, in the order the code
+    applies them (tied to the source by gen/GateTable.v, see proofs/GateProofs.v). *)
+Definition gates_of (method : string) : list gate :=
+  if String.eqb method "AddFact" then [GWrite; GCapacity; GEnabled]
+  else if String.eqb method "AddRule" then [GEnabled; GWrite; GCapacity]
+  else if String.eqb method "RemFact" then [GEnabled; GWrite]
+  else if String.eqb method "RemRule" then [GEnabled; GWrite]
+  else if String.eqb method "GetFact" then [GEnabled; GRead]
+  else if String.eqb method "GetRule" then [GEnabled; GRead]
+  else if String.eqb method "EnableRule" then [GEnabled; GWrite]
+  else if String.eqb method "Clear" then [GEnabled; GWrite]
+  else if String.eqb method "SetParents" then [GEnabled; GWrite]
+  else if String.eqb method "GetParents" then [GEnabled]
+  else if String.eqb method "StateSize" then [GRead]
+  else if String.eqb method "searchFacts" then [GEnabled; GRead]
+  else if String.eqb method "searchRules" then [GEnabled; GRead]
+  else [].
+
 Definition gated {A} (gs : list gate) (l : loc) (c : ctx) (now : Z)
            (k : loc -> loc * outcome A) : loc * outcome A :=
   match run_gates gs l c now with
@@ -89,12 +107,12 @@ Definition gated {A} (gs : list gate) (l : loc) (c : ctx) (now : Z)
 
 (** AddFact: CheckWrite, AtCapacity, then (in addFact) Enabled. *)
 Definition loc_add_fact (l : loc) (c : ctx) (e : env) (id : string) (fact : json) : loc * outcome string :=
-  gated [GWrite; GCapacity; GEnabled] l c (e_now e) (fun l' =>
+  gated (gates_of "AddFact") l c (e_now e) (fun l' =>
     lift l' (st_add (l_state l') id fact (e_now e) (e_fresh e) (e_aux e)) (fun x => x)).
 
 (** AddRule *)
 Definition loc_add_rule (l : loc) (c : ctx) (e : env) (id : string) (rule : json) : loc * outcome string :=
-  gated [GEnabled; GWrite; GCapacity] l c (e_now e) (fun l' =>
+  gated (gates_of "AddRule") l c (e_now e) (fun l' =>
     match rule_from_map rule with
     | Ok _ =>
         match set_expires (jO rule) (e_now e) (e_aux e) with
@@ -116,14 +134,14 @@ Definition loc_add_rule (l : loc) (c : ctx) (e : env) (id : string) (rule : json
     end).
 
 Definition loc_rem_fact (l : loc) (c : ctx) (e : env) (id : string) : loc * outcome bool :=
-  gated [GEnabled; GWrite] l c (e_now e) (fun l' =>
+  gated (gates_of "RemFact") l c (e_now e) (fun l' =>
     lift l' (st_Rem (l_state l') id (e_now e)) (fun x => x)).
 
 Definition prop_id (id prop : string) : string :=
   String.append "!" (String.append id (String.append "." prop)).
 
 Definition loc_rem_rule (l : loc) (c : ctx) (e : env) (id : string) : loc * outcome bool :=
-  gated [GEnabled; GWrite] l c (e_now e) (fun l' =>
+  gated (gates_of "RemRule") l c (e_now e) (fun l' =>
     match st_Rem (l_state l') id (e_now e) with
     | (s, Ok b) =>
         let l1 := upd_state l' s in
@@ -135,11 +153,11 @@ Definition loc_rem_rule (l : loc) (c : ctx) (e : env) (id : string) : loc * outc
     end).
 
 Definition loc_get_fact (l : loc) (c : ctx) (e : env) (id : string) : loc * outcome json :=
-  gated [GEnabled; GRead] l c (e_now e) (fun l' =>
+  gated (gates_of "GetFact") l c (e_now e) (fun l' =>
     lift l' (st_get (l_state l') id (e_now e)) (fun x => x)).
 
 Definition loc_get_rule (l : loc) (c : ctx) (e : env) (id : string) : loc * outcome json :=
-  gated [GEnabled; GRead] l c (e_now e) (fun l' =>
+  gated (gates_of "GetRule") l c (e_now e) (fun l' =>
     match st_get (l_state l') id (e_now e) with
     | (s, Ok fact) =>
         (upd_state l' s,
@@ -159,16 +177,16 @@ Definition set_prop_fact (id prop : string) (val : json) : json :=
   jnorm (JObj [("id", JStr id); (String.append "!" prop, val); ("deleteWith", JArr [JStr id])]).
 
 Definition loc_enable_rule (l : loc) (c : ctx) (e : env) (id : string) (enable : bool) : loc * outcome unit :=
-  gated [GEnabled; GWrite] l c (e_now e) (fun l' =>
+  gated (gates_of "EnableRule") l c (e_now e) (fun l' =>
     if enable then lift l' (st_Rem (l_state l') (prop_id id "disabled") (e_now e)) (fun _ => tt)
     else lift l' (st_add (l_state l') "" (set_prop_fact id "disabled" (JBool true)) (e_now e) (e_fresh e) None)
               (fun _ => tt)).
 
 Definition loc_clear (l : loc) (c : ctx) (e : env) : loc * outcome unit :=
-  gated [GEnabled; GWrite] l c (e_now e) (fun l' => lift l' (st_clear (l_state l')) (fun x => x)).
+  gated (gates_of "Clear") l c (e_now e) (fun l' => lift l' (st_clear (l_state l')) (fun x => x)).
 
 Definition loc_set_parents (l : loc) (c : ctx) (e : env) (ps : list string) : loc * outcome string :=
-  gated [GEnabled; GWrite] l c (e_now e) (fun l' =>
+  gated (gates_of "SetParents") l c (e_now e) (fun l' =>
     lift l' (st_add (l_state l') "" (set_prop_fact "" "parents" (JArr (map JStr ps))) (e_now e) (e_fresh e) None)
          (fun x => x)).
 
@@ -183,20 +201,20 @@ Definition get_parents (l : loc) (now : Z) : loc * outcome (list string) :=
   end.
 
 Definition loc_get_parents (l : loc) (c : ctx) (e : env) : loc * outcome (list string) :=
-  gated [GEnabled] l c (e_now e) (fun l' => get_parents l' (e_now e)).
+  gated (gates_of "GetParents") l c (e_now e) (fun l' => get_parents l' (e_now e)).
 
 Definition loc_size (l : loc) (c : ctx) (e : env) : loc * outcome Z :=
-  gated [GRead] l c (e_now e) (fun l' => (l', Ok (Z.of_nat (length (st_facts (l_state l')))))).
+  gated (gates_of "StateSize") l c (e_now e) (fun l' => (l', Ok (Z.of_nat (length (st_facts (l_state l')))))).
 
 (** searchFacts / searchRules on one location *)
 Definition loc_search_local (l : loc) (c : ctx) (e : env) (pattern : json)
   : loc * outcome (list (string * list bindings)) :=
-  gated [GEnabled; GRead] l c (e_now e) (fun l' =>
+  gated (gates_of "searchFacts") l c (e_now e) (fun l' =>
     lift l' (st_search (l_state l') pattern (e_now e)) (fun x => x)).
 
 Definition loc_rules_local (l : loc) (c : ctx) (e : env) (event : json)
   : loc * outcome (list (string * json)) :=
-  gated [GEnabled; GRead] l c (e_now e) (fun l' =>
+  gated (gates_of "searchRules") l c (e_now e) (fun l' =>
     lift l' (st_find_rules (l_state l') event (e_now e)) (fun x => x)).
 
 (** ** Ancestors (DoAncestors with visiting and done sets) *)
